@@ -4,6 +4,7 @@
 -/
 import BloomVerif.Model.ReadPlan
 import BloomVerif.Lemmas.Stats
+import BloomVerif.Bridge.StatsLoop
 namespace BloomVerif.C23
 open BloomVerif.ReadPlan
 
@@ -148,5 +149,26 @@ example : (entries true nv_blocks).Perm [⟨120, false, 2, 21⟩, ⟨0, true, 0,
 theorem rows_matched_is_rows_returned (hb : Bool) (bs : List SBlock) :
     (returned hb bs).length = rowsMatched hb bs :=
   returned_length hb bs
+
+/-- **The totals as `Results.Stats` computes them** (its accumulation loop regenerated from the Go text on every
+    run): for the entries of any query plan - where skipped entries report zero, `skipped_reports_zero` - the
+    regenerated fold yields exactly the per-block sums and the two block counters, in whatever order the
+    entries were recorded. -/
+theorem totals_generated (hb : Bool) (bs : List SBlock) (es : List Entry) (hp : es.Perm (entries hb bs)) :
+    Gen.statsTotals es =
+      ((((entries hb bs).filter (!·.skipped)).map (·.rowsProcessed)).sum,
+       (((entries hb bs).filter (!·.skipped)).map (·.bytesProcessed)).sum,
+       ((entries hb bs).filter (!·.skipped)).length,
+       ((entries hb bs).filter (·.skipped)).length) := by
+  have hz : ∀ e ∈ es, e.skipped = true → e.rowsProcessed = 0 ∧ e.bytesProcessed = 0 :=
+    fun e he hs => skipped_reports_zero hb bs e (hp.mem_iff.mp he) hs
+  rw [Bridge.statsTotals_generated es hz, totals_order_independent es _ hp]
+  obtain ⟨h1, h2, h3, h4⟩ := totals_are_sums (entries hb bs)
+  simp [Bridge.tup, h1, h2, h3, h4]
+
+/-- non-vacuity: the witness file's entries recorded in another completion order -/
+example : Gen.statsTotals [⟨120, false, 2, 21⟩, ⟨0, true, 0, 0⟩, ⟨40, false, 3, 33⟩] = (5, 54, 2, 1) ∧
+    ([⟨120, false, 2, 21⟩, ⟨0, true, 0, 0⟩, ⟨40, false, 3, 33⟩] : List Entry).Perm (entries true nv_blocks) :=
+  ⟨by decide, by decide⟩
 
 end BloomVerif.C23
